@@ -289,12 +289,16 @@ impl Choices {
         tombs.extend((0..tomb).map(COp::Remove));
         let three: Vec<COp> = (0..3).map(COp::Insert).collect();
         let two_groups: Vec<COp> = (0..if sse2 { 17 } else { 9 }).map(COp::Insert).collect();
+        // MAX plan, key 0 (the element in the LAST bucket) stays, the next ones become tombstones
+        let mut max_tombs: Vec<COp> = (0..fill).map(COp::Insert).collect();
+        max_tombs.extend((1..=tomb).map(COp::Remove));
         full.truncate(fill as usize);
         vec![
             SeedDef { name: "empty", plan: Plan::Zero, seed: vec![], ids: vec![0, 1], len: if q { 3 } else { 4 }, dev: 3 },
             SeedDef { name: "three-keys", plan: Plan::Cluster(2), seed: three, ids: vec![1, 5], len: if q { 2 } else { 3 }, dev: 3 },
             SeedDef { name: "tombstone-saturated", plan: Plan::Zero, seed: tombs, ids: vec![tomb + 1, 100], len: if q { 2 } else { 3 }, dev: if q { 2 } else { 3 } },
             SeedDef { name: "two-groups", plan: Plan::Seq, seed: two_groups, ids: vec![2, 100], len: 2, dev: if q { 2 } else { 3 } },
+            SeedDef { name: "max-plan-tombstones", plan: Plan::Max, seed: max_tombs, ids: vec![0, 100], len: if q { 1 } else { 2 }, dev: 2 },
             SeedDef { name: "full-load", plan: Plan::Zero, seed: full, ids: vec![3, 100], len: if q { 1 } else { 2 }, dev: if q { 2 } else { 3 } },
         ]
     }
